@@ -14,7 +14,8 @@ use crate::token::ui_token::{UiTokenType};
 
 /* 0xAF, 0o17 or 0b11 like literals are numbers, even if the text after zero is a valid currency code (XAF, XCD) */
 fn is_radix_literal(text: &str) -> bool {
-    let mut chars = text.chars();
+    /* the money pattern takes an attached sign with it: '+0xAF', '-0xCD' */
+    let mut chars = text.trim_start_matches(|ch| ch == '+' || ch == '-').chars();
     if chars.next() != Some('0') {
         return false;
     }
